@@ -1,5 +1,7 @@
 import Props.SchedTie
 import TaskModel.Sched.DeferLemmas
+import TaskModel.Sched.MonVal
+import TaskModel.Sched.ProgInv
 /-!
 # C14 — Deferred commands always run, exactly once, in reverse order
 
@@ -7,6 +9,11 @@ Statements are about every trace the executor model accepts (`replay … = some 
 programs, flags, numbers and positions of `defer:` entries, failing positions and
 interleavings with other activations.  Tie: the `sched` correspondence replays the event
 log of the real executor through the same `replay`.
+
+Which statements say what (audit, session 3).  `C14_before_return`, `C14_exit_code`, `C14_outcome_unchanged` restate
+guards / definitions of the acceptor.  Trace-level: `C14_reverse_order`, `C14_all_run`, and — tying the acceptor's
+bookkeeping to the PROGRAM — `C14_regs_are_program`, `C14_all_run_program`, `C14_all_run_complete`.
+`C14_deferred_call_sees_exit_code`: semantics of the value monitor (`C02v`).
 -/
 namespace Props.C14
 open TaskModel.Sched
@@ -427,5 +434,76 @@ example : ((replay prog {} (init 1) run1).bind (fun c => c.act? 1)).map (fun x =
     = some ([2, 0], [0, 2], .run (.exit 3), .done) := by decide
 -- running the deferred entries in registration order is rejected
 example : (replay prog {} (init 1) (run1.take 10 ++ [⟨1, .cmdStart 0 (some 3) true⟩])).isNone = true := by decide
+
+/-! ## deferred `task:` entries see the exit code too
+
+What a reference hands to its callee is not part of the acceptor; `Sched.MonVal` computes it alongside
+the acceptor's own `step` (`valsOf`) and the driver compares it with what the callee's commands printed
+(verdict `C02v`).  For a deferred `task:` entry written `vars: {V: '{{.EXIT_CODE}}'}` the expected value
+is read off the deferring activation at the moment the deferred call enters. -/
+
+/-- **C14 (EXIT_CODE reaches a deferred task call).** The value a deferred `task:` entry passing
+`{{.EXIT_CODE}}` hands to its callee is the exit status recorded when the body failed — the same
+`Act.exitCode` a deferred shell entry is rendered with (`C14_exit_code`, `C14_exit_code_recorded`) — and
+the empty string if the body did not fail with an exit status. -/
+theorem C14_deferred_call_sees_exit_code (Ps : Passes) (c : Config) (vals : List (Nat × Nat)) (p i : Nat) (px : Act)
+    (hp : c.act? p = some px) (hpass : cmdPass Ps px.task i = .exitCode) :
+    expectedVal Ps c vals (.call p i true) = (if px.exitCode > 0 then valNum px.exitCode else valEmpty) := by
+  simp [expectedVal, hp, hpass, passVal]
+
+/-- … whatever the deferring activation was called with itself, and a variable of the deferring task
+arrives as that task's -/
+theorem C14_deferred_call_sees_local (Ps : Passes) (c : Config) (vals : List (Nat × Nat)) (p i : Nat) (px : Act)
+    (hp : c.act? p = some px) (hpass : cmdPass Ps px.task i = .local_) :
+    expectedVal Ps c vals (.call p i true) = valLocal px.task := by
+  simp [expectedVal, hp, hpass, passVal]
+
+/-- non-vacuity: task 0 fails with status 3; its deferred call of task 1 passes `{{.EXIT_CODE}}`; the callee's
+command must have printed `3` (`valNum 3`), and a log in which it printed nothing fails the monitor -/
+private def progD : Program :=
+  [{ cmds := [.call 1 true, .shell 3 false false] }, { cmds := [.shell 0 false false] }]
+private def passD : Passes := [{ cmds := [.exitCode, .none] }, { cmds := [.none] }]
+private def runD : List Label :=
+  [⟨1, .enter (.top 0) 0⟩, ⟨1, .acquire⟩, ⟨1, .depsRelease⟩, ⟨1, .depsReacq⟩, ⟨1, .depsDone .ok⟩, ⟨1, .guardsPassed⟩,
+   ⟨1, .cmdStart 1 none false⟩, ⟨1, .cmdEnd 1 (.exit 3)⟩, ⟨1, .callRelease 0 true⟩,
+   ⟨2, .enter (.call 1 0 true) 1⟩, ⟨2, .acquire⟩, ⟨2, .depsRelease⟩, ⟨2, .depsReacq⟩, ⟨2, .depsDone .ok⟩, ⟨2, .guardsPassed⟩,
+   ⟨2, .cmdStart 0 none false⟩, ⟨2, .cmdEnd 0 .ok⟩, ⟨2, .release⟩, ⟨2, .exit⟩,
+   ⟨1, .callRet 0⟩, ⟨1, .callReacq 0⟩, ⟨1, .release⟩, ⟨1, .exit⟩]
+example : (replay progD {} (init 1) runD).isSome = true := by decide
+example : valMon passD progD {} 1 runD [(2, valNum 3), (1, 0)] = true := by decide
+example : valMon passD progD {} 1 runD [(2, 0)] = false := by decide
+
+/-! ## what was registered, read off the PROGRAM (trace-level, every reachable configuration)
+
+`C14_all_run` says `ran = regs.reverse` — about the acceptor's own bookkeeping.  `S2.ProgInv` ties the
+bookkeeping to the task's command list, so the statement becomes one about the program. -/
+
+/-- **C14 (the registered entries are the program's).** In every reachable configuration the deferred entries an
+activation has registered are exactly the `defer:` entries of its task's command list below the position its
+command loop has reached, in order — none is missed, none registered twice. -/
+theorem C14_regs_are_program (P : Program) (F : Flags) (n : Nat) (tr : List Label) (c : Config)
+    (h : replay P F (init n) tr = some c) (a : Nat) (x : Act) (hx : c.act? a = some x) :
+    x.regs = defersBelow x.def_.cmds x.idx :=
+  (S2.ProgInv_sound P F n tr c h a x hx).regs
+
+/-- **C14 (all of them run, in reverse order — program form).** An activation that has finished its deferred
+part has run exactly the `defer:` entries of the command list below the position where its body stopped, last
+one first — whether the body succeeded, failed or was cancelled. -/
+theorem C14_all_run_program (P : Program) (F : Flags) (n : Nat) (tr : List Label) (c : Config)
+    (h : replay P F (init n) tr = some c) (a : Nat) (x : Act) (hx : c.act? a = some x)
+    (hp : post x.phase = true) : x.ran = (defersBelow x.def_.cmds x.idx).reverse := by
+  rw [C14_all_run P F n tr c h a x hx hp, C14_regs_are_program P F n tr c h a x hx]
+
+/-- … and when the body ran to its end without a failure: EVERY `defer:` entry of the task -/
+theorem C14_all_run_complete (P : Program) (F : Flags) (n : Nat) (tr : List Label) (c : Config)
+    (h : replay P F (init n) tr = some c) (a : Nat) (x : Act) (hx : c.act? a = some x)
+    (hg : Ev.guardsPassed ∈ evsOf a tr) (hp : post x.phase = true) (ho : x.out = {}) :
+    x.ran = (defersBelow x.def_.cmds x.def_.cmds.length).reverse := by
+  have hpl : S2.postLoop x.phase = true := by
+    cases hph : x.phase <;> rw [hph] at hp <;> first | (cases hp; done) | rfl
+  obtain ⟨_, _, hr⟩ := S2.loop_complete P F n tr c h a x hx hg hpl ho
+  rw [C14_all_run P F n tr c h a x hx hp, hr]
+
+example : defersBelow prog.head!.cmds 5 = [0, 2] ∧ plainBelow prog.head!.cmds 5 = [1, 3, 4] := by decide
 
 end Props.C14
